@@ -6,6 +6,15 @@ BadDef == { <<>>, <<10>>, <<120, 10>>, <<45, 49, 10>>, <<32, 51, 10>>, <<49, 32,
             Digits(2^W) \o <<10>>, <<49, 10, 55, 10>>, <<49, 50, 120, 10>>, Digits(2^W - 1) \o <<10>>,
             <<49, 46, 48, 10>>, <<43, 49, 10>> }
 
+\* The reading on decimal strings (used by the trace specification for widths beyond TLC's integers) is the integer one
+ASSUME \A c \in BadDef \cup {Digits(n) \o <<10>> : n \in 0..(2^W + 2)} :
+         LET r == Read([c |-> c])  d == ReadD([c |-> c], W)
+         IN /\ r.ok = d.ok
+            /\ ~r.ok => r.err = d.err
+            /\ r.ok => /\ Digits(r.v) = d.d
+                       /\ NextD(d.d, W) = Digits((r.v + 1) % Modulus)
+ASSUME Read(Missing) = ReadD(Missing, W)
+
 Emit == PrintT("EMIT " \o ToJson([w |-> W,
                                   src |-> [file |-> file, mem |-> mem],
                                   ev |-> ev',
